@@ -15,6 +15,7 @@
 #define CELMA_COMMON_SINGLETON_HPP
 
 
+#include <atomic>
 #include <memory>
 #include <mutex>
 #include <utility>
@@ -91,12 +92,16 @@ private:
    /// The singleton object, created when instance() is called for the first
    /// time.
    static std::unique_ptr< T>  mpObject;
+   /// Pointer to the singleton object, published for the lock-free first
+   /// check in instance().
+   static std::atomic< T*>     mpInstance;
 
 }; // Singleton< T>
 
 
 template< class T> std::mutex           Singleton< T>::mMutex;
 template< class T> std::unique_ptr< T>  Singleton< T>::mpObject;
+template< class T> std::atomic< T*>     Singleton< T>::mpInstance{ nullptr};
 
 
 // inlined methods
@@ -107,16 +112,20 @@ template< class T> template< class... Args>
    T& Singleton< T>::instance( Args&&... args)
 {
 
-   if (mpObject.get() == nullptr)
+   T*  obj = mpInstance.load( std::memory_order_acquire);
+
+   if (obj == nullptr)
    {
       const std::lock_guard< std::mutex>  lg( mMutex);
       if (mpObject.get() == nullptr)
       {
          mpObject.reset( new T( std::forward< Args>( args)...));
       } // end if
+      obj = mpObject.get();
+      mpInstance.store( obj, std::memory_order_release);
    } // end if
 
-   return *mpObject;
+   return *obj;
 } // Singleton< T>::instance
 
 
@@ -124,6 +133,7 @@ template< class T> void Singleton< T>::reset()
 {
 
    const std::lock_guard< std::mutex>  lg( mMutex);
+   mpInstance.store( nullptr, std::memory_order_release);
    mpObject.reset();
    
 } // Singleton< T>::reset
